@@ -26,6 +26,46 @@ def surface_key(s, drop_helpers=True):
     return {"package": s["package"], "types": s["types"], "funcs": sorted(fs)}
 
 
+GO_KEYWORDS = set("break default func interface select case defer go map struct chan else goto package switch const fallthrough if range type continue for import return var".split())
+
+
+def keyword_in_go_position(cfg):
+    """finding D13 is about exactly this: a Go keyword where the grammar of the configuration accepts an identifier (constructor, value,
+    decorator, function, `!value` argument, method of a call, field name), which only the formatter of the normal mode sees"""
+    vs = []
+    for s_ in (cfg.get("services") or {}).values():
+        if not isinstance(s_, dict):
+            continue
+        vs += [s_.get("constructor"), s_.get("value"), s_.get("getter"), s_.get("type")]
+        vs += [c[0] for c in s_.get("calls") or [] if isinstance(c, list) and c]
+        vs += list((s_.get("fields") or {}).keys())
+        vs += [a for a in gen._all_args(s_) if isinstance(a, str) and a.startswith("!value")]
+    for d in cfg.get("decorators") or []:
+        vs += [d.get("decorator")] + [a for a in d.get("arguments") or [] if isinstance(a, str) and a.startswith("!value")]
+    m = cfg.get("meta") or {}
+    vs += list((m.get("functions") or {}).values()) + [m.get("container_type"), m.get("container_constructor"), m.get("pkg")]
+    for v in vs:
+        if isinstance(v, str) and GO_KEYWORDS & set(re.findall(r"[A-Za-z_][A-Za-z0-9_]*", re.sub(r'"[^"]*"', "", v.replace("!value", "")))):
+            return True
+    return False
+
+
+def fixed_cases():
+    fxm = {"pkg": "gen", "imports": {"fx": gen.FX}}
+    out = []
+    # getters that are legal but not exported (lower-case first letter), typed and not, with and without must-getters
+    out.append({"meta": dict(fxm), "services": {"a": {"constructor": "fx.NewA", "getter": "logger"}, "b": {"constructor": "fx.NewA", "type": "*fx.Obj", "getter": "db", "must_getter": True},
+                                                "c": {"value": "fx.GlobalVal", "type": "fx.Obj", "getter": "x_1", "scope": "contextual"}, "d": {"constructor": "fx.NewA", "getter": "Public"}}})
+    out.append({"meta": dict(fxm, default_must_getter=True, container_type="registry", container_constructor="build"),
+                "services": {"a": {"constructor": "fx.NewA", "type": "*fx.Obj", "getter": "a"}}})
+    # strings with line breaks and comment delimiters wherever a string can stand: whatever a mode does with them, both modes agree
+    for v in ("line1\nline2", "a\r\nb", "x */ y /* z", "// c\n// d", "tab\tand `backtick`", "\u2028sep", "end\n"):
+        out.append({"meta": dict(fxm), "parameters": {"p": v, "q": "pre-%p%"},
+                    "services": {"a": {"constructor": "fx.NewA", "arguments": [v, "%p%"], "calls": [["Call1", [v]]], "fields": {"F1": v}, "getter": "GetA"}},
+                    "decorators": [{"tag": "t", "decorator": "fx.Dec1", "arguments": [v]}]})
+    return out
+
+
 def run(ctx, n=None):
     n = n or (40 if ctx.quick else 500)
     root = os.path.join(ctx.scratch(), "c17")
@@ -33,6 +73,7 @@ def run(ctx, n=None):
     mod = levelb.Module(root)
     cfgs = c01.special_cases()[:10] + c01.template_pkg_cases() + [gen.gen_config(ctx.rng) for _ in range(n)]
     cfgs += list(c10.defect_configs().values())
+    cfgs += fixed_cases()
     violations, nontriv = [], set()
     dist = {"both_accepted": 0, "both_rejected": 0, "user_type_refs_in_stub": 0, "getters": 0}
     both = []
@@ -59,7 +100,7 @@ def run(ctx, n=None):
         rn, on, pn = mod.gen_pkg("n%03d" % i, files)
         rs, os_, ps = mod.gen_pkg("s%03d" % i, files, flags=["--stub"])
         if (rn == 0) != (rs == 0):
-            fmt_only = rn != 0 and "CodeFormatter.Format" in on
+            fmt_only = rn != 0 and "CodeFormatter.Format" in on and keyword_in_go_position(cfg)
             violations.append({"sig": "D13:verdict-differs-formatter-only" if fmt_only else "verdict-differs",
                                "what": "normal mode exits %d, --stub exits %d for the same configuration: %s" % (rn, rs, (on if rn else os_)[-300:]), "files": files})
             for d in ("n%03d" % i, "s%03d" % i):
